@@ -25,7 +25,9 @@ func sliceArrayOperator(d *dataTreeNavigator, context Context, expressionNode *E
 	results := list.New()
 
 	for el := context.MatchingNodes.Front(); el != nil; el = el.Next() {
-		lhsNode := el.Value.(*CandidateNode)
+		original := el.Value.(*CandidateNode)
+		// an alias of a sequence is sliced as the sequence it stands for
+		lhsNode := original.unwrapAlias()
 
 		firstNumber, err := getSliceNumber(d, context, lhsNode, expressionNode.LHS)
 
@@ -60,7 +62,7 @@ func sliceArrayOperator(d *dataTreeNavigator, context Context, expressionNode *E
 			newResults = append(newResults, lhsNode.Content[i])
 		}
 
-		sliceArrayNode := lhsNode.CreateReplacement(SequenceNode, lhsNode.Tag, "")
+		sliceArrayNode := original.CreateReplacement(SequenceNode, lhsNode.Tag, "")
 		sliceArrayNode.AddChildren(newResults)
 		results.PushBack(sliceArrayNode)
 
